@@ -49,6 +49,8 @@ def judge(case):
     v.classes.append("mixed" if len(types) == 2 else next(iter(types)))
     if any(len(s["coeffs"][0]) > 1 for s in shells):
         v.classes.append("generalized")
+    if any(s.get("structural_zeros") for s in shells):
+        v.classes.append("structural-zeros")
     if shells[1].get("placed"):
         v.classes.append("placed-by-prefactor")
     if any(s.get("repaired") for s in shells):
@@ -94,3 +96,4 @@ def shards(tier):
 
 SUBCHECKS = [SubCheck("overlap", judge, shards, strategy=strategy)]
 EXHAUSTIVE = {"l_pairs": "all 36 ordered (l_a,l_b) in 0..5"}
+EXPECTED_CLASSES = ["overlap/mixed", "overlap/generalized", "overlap/placed-by-prefactor", "overlap/structural-zeros"]
